@@ -453,7 +453,7 @@ def step (_ : St) (op : List String) (impl : Option (List String)) : St × Strin
   | "chi2" :: kind :: _ :: ws =>
     match floats? ws, it.mapM nat? with
     | some w, some counts =>
-      let probs := if kind == "pick1c" || kind == "shuffle" then w.map (fun _ => 1.0) else w
+      let probs := if kind == "pick1c" || kind == "shuffle" || kind == "uint" then w.map (fun _ => 1.0) else w
       ((), "stat", if chi2Ok counts probs then "ok" else "FAIL:chi2_" ++ kind)
     | _, _ => ((), "stat", "FAIL:chi2_" ++ kind)
   | "chi2d" :: fam :: _ =>
